@@ -19,6 +19,14 @@ class NativeBytecode:
             f.write("\n#[cfg(test)]\nmod verif_native;\n")
         self.installed = True
 
+    def eval_raw(self, vectors, release):
+        """like eval, but returns the raw result text per id (for kernels whose result is more than one value)"""
+        self._raw = True
+        try:
+            return self.eval(vectors, release)
+        finally:
+            self._raw = False
+
     def eval(self, vectors, release):
         """vectors: list of (id, op, [(kind, int_bits), ...]) -> dict id -> result tuple ('OK', kind, bits|'nan') / ('ERR',) / ('PANIC',)"""
         self.install()
@@ -43,6 +51,9 @@ class NativeBytecode:
             for line in f:
                 t_ = line.split()
                 if len(t_) < 2:
+                    continue
+                if getattr(self, "_raw", False):
+                    out[t_[0]] = " ".join(t_[1:])
                     continue
                 if t_[1] == "OK":
                     bits = t_[3]
